@@ -17,8 +17,10 @@ P = {
          "Atomicity of the critical sections under the real Go scheduler (metalock/mmaplock) is runtime behaviour: exercised, not proved. Known finding D5 (failed final sync) is in C08's domain.", "DESIGN.md §8 C02"),
  "C04": ("19 theorems about the reference model Spec.v for all programs and states: errors change nothing, read-your-own-writes at any depth, ordered-map laws, every reachable state is sorted at every level, "
          "created buckets are empty, deleted buckets vanish with their subtree, moved buckets arrive intact and leave their source, a move into the own subtree is refused, sequence laws (mod 2^64), put/delete frame; "
-         "every API result and dump of the implementation is compared with the extracted Spec on generated histories, so a deviation is a concrete failing program.",
-         "Root bucket used only through Tx methods; oversized bucket names are outside generation; MoveBucket into the moved bucket's own subtree is generated and is known finding D4. The tree-mutation layer of bbolt (node split/merge) is tied by correspondence only.", "DESIGN.md §8 C04"),
+         "every API result and dump of the implementation is compared with the extracted Spec on generated histories, so a deviation is a concrete failing program. "
+         "B+tree layer: Node.v (line-for-line node.go: bisection, put, del, split) with theorems put = sorted insert, del = remove, split loses and reorders nothing for every page size and fill percentage; "
+         "Tree.v (node.rebalance + node.spill as a function on a bucket's node tree) predicts the committed tree exactly on every generated commit for the observed visit order.",
+         "Root bucket used only through Tx methods; oversized bucket names are outside generation; MoveBucket into the moved bucket's own subtree is generated and is known finding D4. The per-transaction bucket cache (Bucket.buckets) is tied by correspondence only; node/tree layer: see Node.v/Tree.v.", "DESIGN.md §8 C04"),
  "C05": ("Cursor.v is a line-for-line Gallina model of cursor.go; theorems: the full refinement statement to the sorted-list specification is REFUTED with a kernel-checked witness (known finding D9), "
          "and PROVED for every call sequence (First/Last/Next/Prev/Seek in any order, both ends) on every well-formed tree without emptied leaves - every committed tree, every read transaction; "
          "Seek = first key >= the sought one; keys strictly increasing; the repaired prev/Last behaviour vs the pinned one on concrete trees; the model is compared call by call with the real cursor on the tree "
@@ -29,7 +31,8 @@ P = {
          "decoder-computed page sets of all visible versions.",
          "Domain: files produced by Open + histories (not backup copies / reverted files). Failed commits are covered by C08.", "DESIGN.md §8 C06"),
  "C07": ("The accounting decision procedure Layout.accounted is proved sound for every decoded view (yes => ids in [2,mark) are partitioned into reachable-once / freelist page / free-once), and its key-order verdict is proved to mean sorted at every nesting level (a well-formed reference state); "
-         "it is evaluated by the extracted independent reader on the file bytes after every commit of generated histories, together with key order, element bounds, file length and Tx.Check.",
+         "it is evaluated by the extracted independent reader on the file bytes after every commit of generated histories, together with key order, element bounds, file length and Tx.Check. "
+         "Tree layer: Tree.commit_bucket predicts every freelist Free/Allocate of a commit (which page, how many, in order) and the rule pages(new tree) = pages(old tree) - freed + allocated is evaluated on the real events.",
          "Decoder fuel 200 levels of nesting/depth; images are the page-cache view of the file.", "DESIGN.md §8 C07"),
  "C08": ("Pager.v: for every sequence of frees and allocations of a transaction, Rollback+reload restores exactly the state its begin left (newest version, mark, readers, pending, free set, no writer) and the "
          "invariant (exact accounting, reader pages protected) holds afterwards - for all histories. Tie: every I/O call index of the failing commit is failed once (error returned instead of the call), with and "
@@ -56,7 +59,8 @@ P = {
          "slot 0 holds the snapshot's meta and slot 1 the same meta with txid-1 opens at slot 0. Tie: WriteTo with write transactions committed between the chunks of the copy, and CopyFile; byte count, Tx.Size, "
          "metas, dump vs the Spec snapshot of the reader, decoder accounting, Tx.Check.",
          "Truly concurrent writer goroutines are not used (interleaving is at chunk boundaries of the copy); remaps during a backup are avoided (they would wait for the backup's own reader).", "DESIGN.md §8 C14"),
- "C19": ("The reference verdict is computed by the independent decoder; its accounting part is proved EXACT (sound and complete): it accepts precisely the files in which every id below the mark is reachable once, part "
+ "C19": ("Check.v is a line-for-line model of Tx.check: 6 theorems (freed-twice <=> duplicates, exact final sweep, free-listed meta/freelist pages reported (defect D14, fixed), one page silent <=> in bounds / referenced once / not free / valid type, leaf key order exact, a clean verdict IS the C07 partition for arbitrary file content); the multiset of (class, page, index) it reports is compared with the real Tx.Check on every swept file. "
+         "The reference verdict is computed by the independent decoder; its accounting part is proved EXACT (sound and complete): it accepts precisely the files in which every id below the mark is reachable once, part "
          "of the freelist page, or listed free once. Tie: Tx.Check and the real `bbolt check` binary built from /repo (exit status) vs that verdict on consistent files and on a sweep of single structural corruptions, in both directions (no miss, no false alarm).",
          "The decoder's key-order verdict is proved to imply sortedness at every level and containment in the parent's range; its page-type verdict is exercised, not proved. Corrupt files that make the decoder's walk not end within 5 s count as corrupt.", "DESIGN.md §8 C19"),
  "C20": ("Layout: a meta rewritten with freelist=none and a fresh checksum validates and keeps every other field (abandon); with the older meta in both slots Open presents it (revert). Pager: the free list rebuilt "
@@ -88,7 +92,8 @@ P = {
          "extracted model from the real allocation events; Spec.v for the refused transaction; decoder accounting.",
          "Known finding D7 (map inflated by InitialMmapSize). Windows-specific branches are not modelled.", "DESIGN.md §8 C18"),
  "C12": ("Round-trip theorems between the published layout as a writer specification (LayoutEnc.v) and the independent reader (Layout.v) for integers, checksummed meta pages, free-list pages (both count encodings), leaf pages and branch elements at any file position; "
-         "every file the implementation writes in generated histories is decoded by the extracted reader and compared with the API's report.",
+         "every file the implementation writes in generated histories is decoded by the extracted reader and compared with the API's report. "
+         "Node.write (line-for-line node.write/WriteInodeToPage) is proved to produce exactly the published leaf/branch page and to round-trip through Node.read for pages below 4 GiB (counterexample above); it is compared byte for byte with the real node.write on generated nodes.",
          "Inline-bucket values and the recursive descent through branch pages are exercised by the correspondence only.", "DESIGN.md §8 C12"),
 }
 ALL = ["C%02d" % i for i in range(1, 21)]
